@@ -289,14 +289,36 @@ def body_effects(engine, nodes):
     return out, cont, calls
 
 
-def _havoc_heap_for_loop(engine, st, spec, body=None):
+def _body_local_containers(engine, st, fr, body):
+    """Private containers bound to local names that the loop body mentions: the body may mutate them."""
+    out = set()
+    if fr is None:
+        return out
+    names = set()
+    for n0 in body or []:
+        for n in ast.walk(n0):
+            if isinstance(n, ast.Name):
+                names.add(n.id)
+    for nm in names:
+        eid = st.lookup_env(fr.eid, nm)
+        if eid is None:
+            continue
+        v = st.envs[eid][nm]
+        if isinstance(v, Z) and v.sort == "val":
+            cid = engine.concrete_id(v.t)
+            if cid is not None and cid in st.private and st.objcls.get(cid) in ("list", "deque", "set", "dict"):
+                out.add(cid)
+    return out
+
+
+def _havoc_heap_for_loop(engine, st, spec, body=None, fr=None):
     """Effect of an arbitrary number of earlier iterations: this thread's own writes (fields the
     body may store, by name-based closure) plus interference by other threads / callees."""
     if spec.heap_modifies is not None and not spec.heap_modifies:
         return
     from .state import FUT_ARRAYS, monotone
     if spec.heap_modifies is not None:
-        names, calls = list(spec.heap_modifies), False
+        names, calls, cont = list(spec.heap_modifies), False, False
     else:
         fields, cont, calls = body_effects(engine, body or [])
         names = [f for f in fields if f in st.heap]
@@ -305,12 +327,17 @@ def _havoc_heap_for_loop(engine, st, spec, body=None):
         if calls:
             names += [a for a in FUT_ARRAYS] + ["$flag"]
     old_f = tuple(st.arr(n) for n in FUT_ARRAYS)
+    mutated_local = _body_local_containers(engine, st, fr, body) if (spec.heap_modifies is None and cont) else set()
     for name in names:
         a = st.arr(name)
         new = fresh("LH_" + name.strip("$"), a.sort())
         for p in sorted(st.private | st.frozen):
+            if p in mutated_local and name in ("$len", "$at", "$mem", "$dval"):
+                continue
             new = z3.Store(new, z3.IntVal(p), z3.Select(a, z3.IntVal(p)))
         st.heap[name] = new
+    for p in mutated_local:
+        st.assume(st.get("$len", z3.IntVal(p)) >= 0)
     new_f = tuple(st.arr(n) for n in FUT_ARRAYS)
     for oid in st.futs_seen:
         st.assume(monotone(z3.Select(old_f[0], oid), z3.Select(old_f[1], oid), z3.Select(old_f[2], oid),
@@ -340,11 +367,12 @@ def loop_while(engine, st, fr, s):
     _check_inv(engine, st, fr, spec, ctx, "init", ordinal)
     # arbitrary iteration
     _havoc_locals(engine, st, fr, assigned, spec.keep_locals)
-    _havoc_heap_for_loop(engine, st, spec, [s])
+    _havoc_heap_for_loop(engine, st, spec, [s], fr)
     st.trace.append(Event("loop-head", site=engine.site(fr, s), extra={"ordinal": ordinal}))
     _assume_inv(engine, st, fr, spec, ctx)
     if engine.cfg.concurrent:
         engine.interfere(st, "stmt")
+    t_head = len(st.trace)
     for st1, c in engine.ev(s.test, st, fr):
         if _is_raise(c):
             yield st1, ("raise", c.exc)
@@ -357,6 +385,9 @@ def loop_while(engine, st, fr, s):
             for st3, ctrl in engine.exec_block(s.body, st2, fr):
                 if ctrl is None or ctrl[0] == "continue":
                     _check_inv(engine, st3, fr, spec, ctx, "preserved", ordinal)
+                    if spec.body_post is not None:
+                        for (nm, f) in spec.body_post(engine, st3, fr, ctx, st3.trace[t_head:]):
+                            engine.oblige(st3, fr, "loop %s#%d body: %s" % (fr.func.qualname.split(".")[-1], ordinal, nm), "LI", f)
                     # path ends here (the invariant carries the induction)
                     engine.n_paths += 1
                     _end_of_iteration(engine, st3, fr)
@@ -461,7 +492,7 @@ def _for_symbolic(engine, st, fr, s, it):
     # (a) arbitrary iteration i
     st_b = entry.copy()
     _havoc_locals(engine, st_b, fr, assigned, spec.keep_locals)
-    _havoc_heap_for_loop(engine, st_b, spec, s.body)
+    _havoc_heap_for_loop(engine, st_b, spec, s.body, fr)
     i = fresh("it_idx", I)
     st_b.assume(z3.And(i >= 0, i < n))
     ctx_b = dict(ctx, i=i)
@@ -501,7 +532,7 @@ def _for_symbolic(engine, st, fr, s, it):
     # (b) exit after all n iterations
     st_e = entry
     _havoc_locals(engine, st_e, fr, assigned, spec.keep_locals)
-    _havoc_heap_for_loop(engine, st_e, spec, s.body)
+    _havoc_heap_for_loop(engine, st_e, spec, s.body, fr)
     st_e.put("$len", oid, n)
     if src["kind"] == "seq":
         st_e.put("$at", oid, src["at"])
@@ -663,7 +694,7 @@ def _for_effectful_comp(engine, st, fr, loop, it):
         st_b = entry.copy()
         eid = st_b.new_env(fr.eid)
         cfr = Frame(fr.func, fr.module, eid, fr.self_cls, fr.depth)
-        _havoc_heap_for_loop(engine, st_b, spec, loop.body)
+        _havoc_heap_for_loop(engine, st_b, spec, loop.body, fr)
         i = fresh("it_idx", I)
         st_b.assume(z3.And(i >= 0, i < n))
         st_b.trace.append(Event("loop-head", site=engine.site(fr, loop), extra={"comp": True, "i": i}))
@@ -677,7 +708,7 @@ def _for_effectful_comp(engine, st, fr, loop, it):
                     else:
                         yield st2, ctrl
         st_e = entry
-        _havoc_heap_for_loop(engine, st_e, spec, loop.body)
+        _havoc_heap_for_loop(engine, st_e, spec, loop.body, fr)
         st_e.trace.append(Event("loop-exit", site=engine.site(fr, loop), extra={"comp": True}))
         yield st_e, None
     finally:
